@@ -848,3 +848,46 @@ def check_tables(T, rep):
         else:
             rep.ok('E7.T7-braid-closure', inst, '%s: ccw from a top under-end, over strand enters at %d = %s' % (code, top_over[0], sg))
     return T
+
+
+def check_resolved_by(facts, rep):
+    """T12 (C04, the state sum of the Jones polynomial runs over Link::resolved_by): bit i of a state resolves the i-th
+    *unresolved* crossing - a Link may carry crossings that are smoothed already (a crossing-free circle is one; so is the
+    result of resolved_at), and they take no bit. The loop of resolved_by is therefore driven by the bits alone, each
+    resolving `crossing_at_mut(0)` (the first crossing still unresolved), or by the bits zipped with the *filtered*
+    unresolved crossings. Zipping the bits with all of `data` and skipping resolved entries inside the body lets a
+    smoothed crossing consume a bit: the following crossings get their neighbours' bits and the last one stays unresolved."""
+    from symex import SymEx, strip
+    b = facts.bodies.get('yui_link::link::link::Link::resolved_by')
+    if b is None:
+        rep.indet('E7.T12: Link::resolved_by not found')
+        return
+    rep.saw(b)
+    inst = 'Link::resolved_by|bit i goes to the i-th unresolved crossing'
+
+    def dk(t):
+        return re.sub(r'\b_\d+\b', 'L', re.sub(r'loop\d+_\d+', 'L', re.sub(r'#(?:i\d+:)?\d+\.\d+', '', show(t, -1000)))).replace('&mut ', '').replace('&', '').replace('*', '')
+    srcs, resolves, tests = set(), set(), set()
+    for p in SymEx(b, havoc_loops=True, max_paths=2000, inline=False).run():
+        for (fid, bb_, l), v in p.state.loop_entry.items():
+            if fid == 0 and strip(v)[0] == 'call' and strip(v)[1].split('::')[-1] == 'into_iter':
+                srcs.add(dk(strip(v)[2][0]))
+        if p.end == 'backedge':
+            for e in p.calls():
+                n = e.name.split('::')[-1]
+                if n == 'resolve' and len(e.args) == 2:
+                    resolves.add(dk(e.args[0]))
+            for c in p.branches():
+                if 'is_resolved(' in dk(c.term):
+                    tests.add(dk(c.term))
+    bits = r'iter\((deref\()?arg2\)?\)'
+    if len(srcs) == 1 and re.match('^' + bits + '$', next(iter(srcs))) and resolves and all(re.match(r'^crossing_at_mut\(L, 0\)$', x) for x in resolves) and not tests:
+        rep.ok('E7.T12-state-bits', inst, 'for r in s.iter() { l.crossing_at_mut(0).resolve(r) }')
+    elif len(srcs) == 1 and re.match(r'^zip\(filter\(iter_mut\((deref(?:_mut)?\()?L\.data\)?\), closure<[^>]*>\), ' + bits + r'\)$', next(iter(srcs))) and not tests:
+        rep.ok('E7.T12-state-bits', inst, 'bits zipped with the filtered unresolved crossings')
+    elif len(srcs) == 1 and re.match(r'^zip\(iter_mut\((deref(?:_mut)?\()?L\.data\)?\), ' + bits + r'\)$|^zip\(' + bits + r', iter_mut\((deref(?:_mut)?\()?L\.data\)?\)\)$', next(iter(srcs))) and tests:
+        rep.violation('E7.T12-state-bits', inst,
+                      'Link::resolved_by pairs the state bits with *all* entries of `data` by position and tests is_resolved() inside the loop: a crossing that is smoothed already (a crossing-free circle, the result of resolved_at) consumes a bit, the crossings after it get the wrong bits and the last one stays unresolved - the state sum of jones_polynomial counts the circles of a wrong resolution',
+                      where=b.where())
+    else:
+        rep.indet('E7.T12: Link::resolved_by outside the recognised fragment: loop over %s, resolves %s, tests %s' % (sorted(srcs), sorted(resolves)[:2], sorted(tests)[:2]))
